@@ -24,5 +24,11 @@ UNIT = {
          "wrap_pre": "impl Number {\n", "wrap_post": "}\n"},
         {"fn": "partial_cmp", "impl": r"impl PartialOrd for Number", "file": F_AR, "emit_name": "Number_partial_cmp",
          "rewrites": STD, "wrap_pre": "impl Number {\n", "wrap_post": "}\n"},
+        {"fn": "partial_cmp", "impl": r"impl PartialOrd < usize > for Number", "file": F_AR, "emit_name": "Number_partial_cmp_usize",
+         "rewrites": STD + [("rename_fn", "Number_partial_cmp_usize"), ("replace", "(n as usize).partial_cmp(rhs)", "usize_partial_cmp(n as usize, rhs)", "R10"), ("replace", "*rhs as f64", "usize_as_f64(*rhs)", "R10")],
+         "wrap_pre": "impl Number {\n", "wrap_post": "}\n"},
+        {"fn": "eq", "impl": r"impl PartialEq < usize > for Number", "file": F_AR, "emit_name": "Number_eq_usize",
+         "rewrites": STD + [("rename_fn", "Number_eq_usize"), ("replace", "(n as usize).eq(rhs)", "usize_eq(n as usize, rhs)", "R10"), ("replace", "*rhs as f64", "usize_as_f64(*rhs)", "R10")],
+         "wrap_pre": "impl Number {\n", "wrap_post": "}\n"},
     ],
 }
